@@ -34,7 +34,7 @@ def units_for(tier):
     return sorted(set(us))
 
 
-def analyse_units(rep, units, funcs_re, member=None, check_increment=False):
+def analyse_units(rep, units, funcs_re, member=None, check_increment=False, check_singular=False):
     d = cfgdump(units, os.path.join(OUT, rep.pid, "dump"), funcs=funcs_re, root=REPO)
     funcs = load_functions(d)
     # one definition per (qname, signature): headers are seen from several units
@@ -46,6 +46,7 @@ def analyse_units(rep, units, funcs_re, member=None, check_increment=False):
     rep.count("functions analysed", len(funcs))
     tr = Tracker(funcs, lambda t: bool(ITER.search(t or "")), member=member)
     tr.check_increment = check_increment
+    tr.check_singular = check_singular
     tr.compute_summaries()
     nreq = sum(1 for k, s in tr.summ.items() for v, e in s.items() if e[0])
     nens = sum(1 for k, s in tr.summ.items() for v, e in s.items() if e[1] == "C")
